@@ -6,14 +6,16 @@ use crate::report::{self, Report, Violation};
 use serde_json::json;
 use std::collections::{BTreeMap, BTreeSet};
 
-const FORMS: [&str; 13] = [
+const FORMS: [&str; 16] = [
     "use-single", "use-group", "use-nested-group", "use-glob", "qualified-path", "qualified-nested-path", "use-crate", "use-super", "use-self",
     // the target as a generic argument of a type of a third crate
     "qualified-generic-of-qualified", "qualified-generic-of-used", "used-generic-of-qualified", "qualified-generic-of-nested-qualified",
+    // the target only in a non-last generic argument position
+    "map-key-used", "pair-first-arg-of-used-generic", "pair-first-arg-qualified-generic-of",
 ];
 
 fn third_crate(form: &str) -> bool {
-    form.contains("generic-of")
+    form.contains("generic-of") || form.contains("generic")
 }
 const POSITIONS: [&str; 3] = ["field", "vec", "variant-payload"];
 
@@ -50,6 +52,9 @@ fn workspace(c: &Case) -> Vec<(String, String)> {
         "qualified-generic-of-used" => (format!("use {tc}::Target;\n"), "shapes::Page<Target>".to_string()),
         "used-generic-of-qualified" => ("use shapes::Page;\n".to_string(), format!("Page<{tc}::Target>")),
         "qualified-generic-of-nested-qualified" => (String::new(), format!("shapes::inner::Page<Option<{tc}::deep::Target>>")),
+        "map-key-used" => (format!("use {tc}::Target;\n"), "HashMap<Target, u32>".to_string()),
+        "pair-first-arg-of-used-generic" => (format!("use {tc}::Target;\nuse shapes::Pair;\n"), "Pair<Target, String>".to_string()),
+        "pair-first-arg-qualified-generic-of" => (String::new(), format!("shapes::Pair<{tc}::Target, Vec<u32>>")),
         "use-crate" => ("use crate::m::Target;\n".to_string(), "Target".to_string()),
         "use-super" => ("use super::Target;\n".to_string(), "Target".to_string()),
         _ => ("use self::m::Target;\n".to_string(), "Target".to_string()),
@@ -78,7 +83,7 @@ fn workspace(c: &Case) -> Vec<(String, String)> {
         files.push(("ws/zz-other/src/lib.rs".to_string(), "#[typeshare]\npub struct Target { pub other_crate: bool }\n".to_string()));
     }
     if third_crate(c.form) {
-        files.push(("ws/shapes/src/lib.rs".to_string(), "#[typeshare]\npub struct Page<T> { pub items: Vec<T>, pub total: u32 }\n".to_string()));
+        files.push(("ws/shapes/src/lib.rs".to_string(), "#[typeshare]\npub struct Page<T> { pub items: Vec<T>, pub total: u32 }\n\n#[typeshare]\npub struct Pair<A, B> { pub a: A, pub b: B }\n".to_string()));
     }
     files
 }
